@@ -5,7 +5,8 @@ only-base oracle) and `c15repo` (raw diff-tree scanner through the output seam, 
 try_fast_path_* decisions on a scratch repository vs model and vs an independent recomputation);
 end-to-end TWIN runs: every generated rebase / cherry-pick history is executed twice from
 identical snapshots, once normally and once with GIT_AI_VERIF_NO_FAST_PATH=1, and the notes of the
-rewritten commits are compared under `≈` and under blame-equivalence.
+rewritten commits are compared under `≈` and under blame-equivalence.  Since /repo adc259f3 full replay
+writes per-commit notes (O14 repaired): any difference under `≈` is a violation.
 """
 import concurrent.futures, json, os, random, shutil, time
 from vlib import common as C
@@ -21,14 +22,18 @@ THEOREMS = [
     "GitAi.Remap.scanner_true_iff_no_record",
     "GitAi.Remap.comparator_complete",
     "GitAi.Remap.remap_equiv_original",
+    "GitAi.Remap.shortcut_equiv_replay_abstract",
+    "GitAi.Remap.replay_pair_equiv",
     "GitAi.Remap.shortcut_equiv_replay",
-    "GitAi.Remap.shortcut_equiv_replay_unconditional_false",
-    "GitAi.Remap.shortcut_blame_equiv_partial",
+    "GitAi.Remap.replay_lines_per_commit",
+    "GitAi.Remap.shortcut_blame_equiv",
+    "GitAi.Remap.w14_replay_lines",
+    "GitAi.Remap.w14_shortcut_equiv_replay",
+    "GitAi.Remap.cumulative_emission_not_equiv",
 ]
 MARK_REBASE = "fast-path-rebase-note-remap"
 MARK_CP = "fast-path-cherry-pick-note-remap"
 CLOCK0 = 1760000000          # after blame.rs OLDEST_AI_BLAME_DATE (2025-07-04); see report
-COUNTERS = ("total_additions", "total_deletions", "accepted_lines", "overriden_lines")
 KINDS = ["rebase-clean", "rebase-clean", "rebase-clean", "rebase-upstream-tracked", "rebase-reorder",
          "rebase-drop", "rebase-missing-note", "cp-single", "cp-range", "cp-range", "cp-list-skip",
          "cp-target-differs"]
@@ -71,6 +76,10 @@ def gen_spec(kind, seed):
                 ops.append((rnd.choice(["overwrite", "delete"]), rnd.random(), 1))
             edits.append((f, ops))
         commits.append({"session": f"sess-{seed}-{k}" if rnd.random() < 0.8 else f"sess-{seed}-1", "edits": edits})
+        # a second session whose only line a person removes before the commit: its record is in the commit's
+        # note without any line (drawn last, from its own stream, so that older corpus seeds keep their histories)
+        if random.Random(f"c15x:{kind}:{seed}:{k}").random() < 0.15:
+            commits[-1]["extra_session"] = f"gone-{seed}-{k}"
     return {"kind": kind, "seed": seed, "tracked": tracked, "commits": commits,
             "human_mid": kind == "cp-list-skip" or (kind in ("rebase-clean", "cp-range") and rnd.random() < 0.2),
             "base_len": rnd.randint(7, 10), "drop_note": rnd.randrange(ncommits), "tool_input": rnd.random() < 0.35}
@@ -96,6 +105,18 @@ FIXED = {
     "field-name-path": {"kind": "rebase-clean", "seed": "fnp", "tracked": ['k"base_commit_sha":"v".txt'], "base_len": 5,
                         "human_mid": False, "drop_note": 0,
                         "commits": [{"session": "s1", "edits": [('k"base_commit_sha":"v".txt', [("insert", 0.5, 2)])]}]},
+    # the same session continues over three commits with a growing transcript: each rewritten commit keeps the
+    # version of the record its original recorded (was: the newest version of the whole history, part of O14)
+    "session-continues": {"kind": "rebase-clean", "seed": "sc", "tracked": ["f1.txt", "f2.txt"], "base_len": 6, "human_mid": False,
+                          "drop_note": 0, "tool_input": True,
+                          "commits": [{"session": "s1", "edits": [("f1.txt", [("insert", 0.2, 2)])]},
+                                      {"session": "s1", "edits": [("f1.txt", [("insert", 0.9, 1)]), ("f2.txt", [("insert", 0.5, 1)])]},
+                                      {"session": "s1", "edits": [("f2.txt", [("insert", 0.1, 2)])]}]},
+    # a commit whose note carries a record without lines (the session's line was removed before the commit)
+    "record-without-lines": {"kind": "rebase-clean", "seed": "rwl", "tracked": ["f1.txt"], "base_len": 6, "human_mid": False,
+                             "drop_note": 0,
+                             "commits": [{"session": "s1", "extra_session": "gone1", "edits": [("f1.txt", [("insert", 0.3, 1)])]},
+                                         {"session": "s2", "extra_session": "gone2", "edits": [("f1.txt", [("insert", 0.8, 2)])]}]},
     "field-name-path-cp": {"kind": "cp-range", "seed": "fnp2", "tracked": ['"base_commit_sha": "x" y.txt', "f1.txt"], "base_len": 5,
                            "human_mid": False, "drop_note": 0,
                            "commits": [{"session": "s1", "edits": [('"base_commit_sha": "x" y.txt', [("insert", 0.5, 1)])]},
@@ -158,37 +179,6 @@ def equiv(a, b, base_b):
     am, bm = dict(am), dict(bm)
     am.pop("base_commit_sha", None); bm.pop("base_commit_sha", None)
     return am == bm
-
-
-def cumulative_family(fast, slow, cum_k, cum_head, range_sessions, range_versions=None):
-    """Is `slow` the shortcut's note plus ONLY what the cumulative slow path adds?  (known finding
-    slow-path-cumulative-lines): every (path, session, line) of the shortcut's note is in the
-    slow note; every extra one is an AI line of the range present at this commit; extra sessions
-    belong to the range; common prompt records differ in the
-    recomputed counters only, or the replayed note carries the version of the record that another
-    commit of the range recorded for the same session (the slow path merges prompts picking the newest)."""
-    (fa, fm), (sa, sm) = note_view(fast), note_view(slow)
-    ft = {(p, h, l) for (p, h), ls in fa.items() for l in ls}
-    st = {(p, h, l) for (p, h), ls in sa.items() for l in ls}
-    if not ft <= st:
-        return False, "shortcut note has lines the replayed note lacks"
-    if not (st - ft) <= (cum_k | cum_head):
-        return False, "replayed note has lines that are neither cumulative nor head-state lines"
-    fp, sp = fm.get("prompts", {}), sm.get("prompts", {})
-    if not set(fp) <= set(sp):
-        return False, "shortcut note has sessions the replayed note lacks"
-    if not (set(sp) - set(fp)) <= range_sessions:
-        return False, "replayed note has sessions from outside the range"
-    for h in fp:
-        a, b = dict(fp[h]), dict(sp[h])
-        for c in COUNTERS:
-            a.pop(c, None); b.pop(c, None)
-        if a != b and b not in (range_versions or {}).get(h, []):
-            return False, "a common prompt record differs beyond the recomputed counters"
-    for key in ("schema_version", "git_ai_version"):
-        if fm.get(key) != sm.get(key):
-            return False, f"{key} differs"
-    return True, ""
 
 
 def rewritten_later(ghost, k):
@@ -257,6 +247,15 @@ def run_scenario(spec):
                 if kind != "cp-list-skip":
                     origs.append(m); ghost.append({f: list(v) for f, v in tree.items()}); labels.append(0)
             files = []
+            if c.get("extra_session"):
+                f0 = c["edits"][0][0]
+                r.write(f0, content(tree[f0][:2] + [Line(f"k{k}-gone")] + tree[f0][2:]))
+                rc, _, err = r.ai_checkpoint(c["extra_session"], [f0])
+                if rc != 0:
+                    obs["error"] = f"checkpoint failed: {err[-300:]}"; return obs
+                r.human_checkpoint([f0])
+                r.write(f0, content(tree[f0]))
+                r.human_checkpoint([f0])
             for (f, ops) in c["edits"]:
                 tree[f] = apply_ops(tree[f], ops, c["session"], k, f"k{k}")
                 r.write(f, content(tree[f])); files.append(f)
@@ -291,9 +290,6 @@ def run_scenario(spec):
             r.git("checkout", "-q", "feature")
         pre_head = r.head()
         orig_notes = {o: r.note_text(o) for o in origs}
-        # every note that exists before the operation (the replay merges prompt records from the whole original
-        # history of a session, also from commits that are not part of the rewritten / picked range)
-        pre_notes = [t for t in (r.note_text(c) for c in r.notes_list()) if t]
         # ---- snapshot
         twin = os.path.join(env.root, "b")
         shutil.copytree(r.path, twin, symlinks=True)
@@ -361,8 +357,14 @@ def run_scenario(spec):
             for p in tr_paths:
                 if blob_at(r, o, p) != blob_at(r, n, p):
                     differing.append([i, p])
-        obs.update({"ok": True, "origs": origs, "orig_notes": orig_notes, "runs": runs, "tracked": tr_paths,
-                    "pairs": pairs, "differing": differing, "pre_notes": pre_notes, "world_commits": list(world_commits.values()),
+        rwl = 0
+        for o in origs:
+            pn = e2e.parse_note(orig_notes[o]) if orig_notes.get(o) else None
+            if pn and pn.get("meta"):
+                used = {h for hs in pn["files"].values() for h, ls in hs.items() if ls}
+                rwl += sum(1 for h in (pn["meta"].get("prompts") or {}) if h not in used)
+        obs.update({"ok": True, "records_without_lines": rwl, "origs": origs, "orig_notes": orig_notes, "runs": runs, "tracked": tr_paths,
+                    "pairs": pairs, "differing": differing, "world_commits": list(world_commits.values()),
                     "missing_note": [o for o, _ in pairs if not orig_notes.get(o)],
                     "sessions": sorted(sessions), "ncmd": env.ncmd,
                     "ghost": [{f: [[l.text, e2e.short_hash(l.who, "mock_agent") if l.who else None, l.born] for l in ls]
@@ -404,7 +406,8 @@ def judge(res, obs, driver_reqs):
     mark = MARK_REBASE if rebase else MARK_CP
     took = mark in fast["markers"]
     tags = [f"e2e:{kind}", f"e2e:path={'shortcut' if took else 'replay'}", f"e2e:commits={len(obs['origs'])}",
-            f"e2e:tracked={len(obs['tracked'])}", f"e2e:tool-input-field={bool(obs.get('tool_input'))}"]
+            f"e2e:tracked={len(obs['tracked'])}", f"e2e:tool-input-field={bool(obs.get('tool_input'))}",
+            f"e2e:record-without-lines={obs.get('records_without_lines', 0) > 0}"]
     wit = {"spec": spec, "pairs": obs["pairs"], "tracked": obs["tracked"], "differing": obs["differing"],
            "missing_note": obs["missing_note"], "markers": fast["markers"]}
     if fast["rc"] != 0 or slow["rc"] != 0 or fast["rc"] != slow["rc"]:
@@ -441,10 +444,11 @@ def judge(res, obs, driver_reqs):
             if obs["orig_notes"].get(o) and fast["notes"].get(n) is not None:
                 driver_reqs.append(({"op": "c15_remap", "text": obs["orig_notes"][o], "target": n, "reser": None},
                                     ("remap", fast["notes"][n], dict(wit, original=o, new=n))))
-    # ghost reference model of both line sets (Lean perCommitLines / slowLines) vs the two binaries'
-    # notes; its domain: precondition holds and no AI line of the range is rewritten later
+    # ghost reference model of both line sets (Lean perCommitLines / replayLines = the cumulative state cut to the
+    # lines the commit adds) vs the two binaries' notes; its domain: the precondition holds
     append_only = obs["ghost"] and not any(rewritten_later(obs["ghost"], j) for j in range(len(obs["ghost"])))
-    if pre and took and append_only and len(obs["ghost"]) == len(fast["news"]) == len(slow["news"]):
+    tags.append(f"e2e:range-append-only={bool(append_only)}")
+    if pre and took and obs["ghost"] and len(obs["ghost"]) == len(fast["news"]) == len(slow["news"]):
         tags.append("e2e:line-model=compared")
         gl = lambda g: [{"path": f, "lines": [[l[1], l[2]] for l in ls]} for f, ls in sorted(g.items())]
         for k, g in enumerate(obs["ghost"]):
@@ -461,16 +465,6 @@ def judge(res, obs, driver_reqs):
         res.oracle_failure("twin-histories-differ", wit, "the rewritten histories differ between the twins")
         res.tag(tags); return
     n_equiv = n_cum = n_mis = 0
-    # every version of every prompt record the range's (copied) notes and the notes of the original history carry,
-    # modulo the recomputed counters
-    range_versions = {}
-    for t_ in [fast["notes"].get(nf_) for nf_ in fast["news"]] + list(obs.get("pre_notes") or []):
-        p_ = e2e.parse_note(t_) if t_ is not None else None
-        if p_ and not p_["errors"] and p_["meta"]:
-            for h_, rec_ in (p_["meta"].get("prompts") or {}).items():
-                r_ = {k_: v_ for k_, v_ in rec_.items() if k_ not in COUNTERS}
-                if r_ not in range_versions.setdefault(h_, []):
-                    range_versions[h_].append(r_)
     head_cum = set()    # head-state lines of untouched files are no longer emitted (/repo 4fd233ae, efdc0647)
     for k, (nf, ns) in enumerate(zip(fast["news"], slow["news"])):
         tf, ts = fast["notes"].get(nf), slow["notes"].get(ns)
@@ -488,22 +482,27 @@ def judge(res, obs, driver_reqs):
         if not took:
             res.oracle_failure("twin-notes-differ-without-shortcut", w2, "both twins replayed, yet the notes differ")
             continue
+        # (the families "replay writes cumulative notes" — O14, repaired in /repo by adc259f3 — and "replay credits a
+        #  line that a later commit of the range rewrote" — repaired by 3d512cdb + 5c3b3e4a — are no longer classified:
+        #  a return is reported as a violation; `shape` only names what the difference looks like)
         cum_k = set(map(tuple, obs["ghost_cum"][k])) if k < len(obs["ghost_cum"]) else set()
-        fam, why = (False, "a note is missing or unparsable")
-        if pf and ps and not pf["errors"] and not ps["errors"] and pf["meta"] and ps["meta"]:
-            fam, why = cumulative_family(pf, ps, cum_k, head_cum, set(obs.get("sessions", [])), range_versions)
-        if fam:
-            n_cum += 1
-            res.oracle_failure("slow-path-cumulative-lines", w2,
-                               "shortcut note (per-commit lines) differs under ≈ from the replayed note (cumulative lines)")
-        else:
-            # (the family "replay credits a line that a later commit of the range rewrote" was repaired in /repo by
-            #  3d512cdb + 5c3b3e4a; it is no longer classified, so a return is reported as a violation)
-            if pf and ps and k < len(obs["ghost"]) and misattribution_family(pf, ps, obs, k, cum_k, head_cum):
+        shape = "other"
+        if pf and ps and not pf["errors"] and not ps["errors"]:
+            (fa, _), (sa, _) = note_view(pf), note_view(ps)
+            ft = {(p, h, l) for (p, h), ls in fa.items() for l in ls}
+            st = {(p, h, l) for (p, h), ls in sa.items() for l in ls}
+            if ft == st:
+                shape = "same lines, metadata (prompt records / versions) differs"
+            elif ft <= st and (st - ft) <= cum_k:
+                n_cum += 1
+                shape = "replayed note = shortcut note + other AI lines of the range (shape of the repaired finding slow-path-cumulative-lines)"
+            elif k < len(obs["ghost"]) and misattribution_family(pf, ps, obs, k, cum_k, head_cum):
                 n_mis += 1
-                why += " [shape of the repaired finding slow-path-misattributes-lines-rewritten-later]"
-            res.oracle_failure("shortcut-differs-from-replay", dict(w2, why=why),
-                               "the shortcut's note is not ≈ to the replayed note, and not in the cumulative-lines family: " + why)
+                shape = "shape of the repaired finding slow-path-misattributes-lines-rewritten-later"
+        else:
+            shape = "a note is missing or unparsable"
+        res.oracle_failure("shortcut-differs-from-replay", dict(w2, why=shape),
+                           "the shortcut's note is not ≈ to the replayed note: " + shape)
     tags.append(f"e2e:notes={'misattributed-diff' if n_mis else ('all-equiv' if n_cum == 0 else 'cumulative-diff')}")
     bl_same = True
     for fk, bf in fast["blame"].items():
@@ -559,8 +558,8 @@ def resolve_driver(res, driver_reqs):
                 first = first or {"kind": "remap", "model": m.get("text"), "observed": observed, "witness": wit}
     res.obligation("e2e correspondence: model fastPathApplies = shortcut marker observed", bad_path == 0, "correspondence")
     res.obligation("e2e correspondence: note written by the shortcut = model remapNote(original note, new sha)", bad_remap == 0, "correspondence")
-    res.obligation("e2e correspondence: line sets of the shortcut's / the replayed notes = model perCommitLines / slowLines "
-                   "(append-only histories)", bad_lines == 0, "correspondence")
+    res.obligation("e2e correspondence: line sets of the shortcut's / the replayed notes = model perCommitLines / replayLines",
+                   bad_lines == 0, "correspondence")
     res.extra.setdefault("correspondence", {})["e2e"] = {"compared": len(driver_reqs), "path_disagreements": bad_path,
                                                         "remap_disagreements": bad_remap, "line_sets_compared": n_lines,
                                                         "line_set_disagreements": bad_lines}
@@ -649,9 +648,12 @@ def run(tier, seed):
                    "serde_json (metadata text around the base field: shape, escaping and re-serialisation asserted per case, not proved)",
                    "git (diff-tree --stdin --raw -z output for flat trees reference-modelled; compared byte-for-byte per case)",
                    "UTF-8: the Rust scanners compare ASCII bytes only, so byte offsets are char boundaries (char-level model)"]
-    res.assumptions = ["replay (the slow path) is abstract in shortcut_equiv_replay: ReplayHyps = replay-canonical originals + "
-                       "content-determined replay; the first is refuted for the real slow path (O14, known finding), "
-                       "blame-equivalence is what is proved instead, over the ghost reference model of both line sets",
+    res.assumptions = ["shortcut_equiv_replay: full replay is the modelled note_for_rewritten_commit over a ghost labelling of the "
+                       "repository (blob -> lines with provenance; git diff -U0 added lines = lines born at the commit; the replay's "
+                       "running state = every AI line of the range present): tied to both binaries' notes by the twin runs, not "
+                       "proved of the Rust replay (attribution tracker, content matching). Hypotheses are about the input only: the "
+                       "originals carry the notes the post-commit path wrote (lines the commit added, its sessions' records), "
+                       "in serde's shape; tracked paths distinct",
                        "commit ids need no JSON escaping (jsonEscape c = c); foreign notes with a key ending in \"base_commit_sha "
                        "before the real field are outside the serializer's shape (witnessed)"]
     C.phase_proofs(res, PROP, THEOREMS)
